@@ -11,7 +11,7 @@ import itertools
 
 import numpy as np
 
-from harness import common, nnd_corr, lattice
+from harness import common, nnd_corr, lattice, latticegen
 from harness.common import fmt
 
 COQ_FILES = ["model/Base.v", "model/SparseOps.v", "proofs/ListAux.v", "proofs/C08Proofs.v", "model/Lattice.v", "proofs/LatticeProofs.v"]
@@ -180,6 +180,7 @@ def run(ctx):
     ctx.sentinels_changed = changed
     ctx.notes["sentinels"] = cur
     ctx.build(COQ_FILES)
+    latticegen.regenerate(ctx, "C08")
     primitives(ctx, ctx.budget(400, 4000))
     lattice.stream(ctx, ctx.budget(600, 6000), "sparse")
     metric_pairs(ctx, 6, ctx.budget(7, 1))
